@@ -348,6 +348,15 @@ for _i, _vm in enumerate(('int jv[cobj];', 'int (*jv)[cobj] = 0;', 'typedef int 
     add('switch-into-vm-scope/case/%d' % _i, 'stmt', 'switch (cobj) { case 1: { %s %s case 2: %s } }' % (_vm, _use, _use))
     add('switch-into-vm-scope/default/%d' % _i, 'stmt', 'switch (cobj) { %s default: %s }' % (_vm, _use))
     add('switch-into-vm-scope/first-case/%d' % _i, 'stmt', 'switch (cobj) { %s case 0: %s }' % (_vm, _use))
+# a structure with a flexible array member must not be a member of a structure or an element of an array, also when it gets there
+# through unions, anonymous or named, at any depth (6.7.2.1p3; seeded round 11: the mark was not passed on through a union)
+_FAM = 'struct fx%d { int n; int d[]; };'
+for _i, _wrap in enumerate(('struct fo%d { struct fx%d a; int y; };', 'union fu%d { struct fx%d a; long x; }; struct fo%d { union fu%d u; int y; };',
+                            'struct fo%d { union { struct fx%d a; long x; }; int y; };', 'union fu%d { struct fx%d a; long x; }; union fv%d { union fu%d u; char c; }; struct fo%d { union fv%d v; int y; };',
+                            'struct fo%d { int y; union { union { struct fx%d a; } in; long x; } u; };', 'struct fx%d fa%d[2];', 'union fu%d { struct fx%d a; long x; }; union fu%d fb%d[2];',
+                            'struct fo%d { int y; struct fx%d last; }; struct fp%d { struct fo%d o; };')):
+    _k = 100 + _i
+    add('flexible-struct-as-member/%d' % _i, 'decl', (_FAM + ' ' + _wrap) % ((_k,) * (1 + _wrap.count('%d'))), blockok=False)
 add('init-negative-designator', 'decl', 'int in9[2] = { [-1] = 1 };')
 # boundary versions of the range checks (index == length, width == type width + 1, value == max + 1)
 add('init-designator-equal-to-length', 'decl', 'int in8b[3] = { 1, [3] = 7 };')
